@@ -176,7 +176,7 @@ def packet_families(rng, tier, scale=1.0):
         out.append(("beyond-64k", G.jumbo_packet(at)))
     for rl in ((65530,) if tier == "quick" else (65525, 65526, 65530, 65535)):
         out.append(("jumbo-rdlen", G.jumbo_packet(None, big_rdlen=rl)))
-    for T in (255, 256, 257, 512):
+    for T in (255, 256, 257, 512, 4096, 8191, 8192, 8193, 16383):  # incl. targets at the size constants of the library and the largest pointer value
         for b in G.label_at_packets(T):
             out.append(("label-at-%d" % T, b))
     # every declared data length of a record with names inside (SOA, MX) from 0 to beyond the true one, with long uncompressed
@@ -706,7 +706,7 @@ def special_valid(rng):
             cnt[sec] = 2
             out.append(struct.pack(">HHHHHH", 5, 0x8180, 1, *cnt) + Qw + rrb(G.wire_name(q), t, rd) + rrb(wp, 1, b"\1\2\3\4"))
     # a label starting at an offset whose low byte is 0xff / 0x00 / 0x01, named by a pointer from every kind of name
-    for T in (255, 256, 257, 512, 768):
+    for T in (255, 256, 257, 512, 768, 4096, 8191, 8192, 8193, 12000, 16382, 16383):
         out += G.label_at_packets(T)
     # beyond 64 KiB: a record after offset 65535, a record with a data length of 65530
     out.append(G.jumbo_packet(65536))
@@ -1066,6 +1066,17 @@ class C13(Prop):
                 cases.append(Case("y%d" % k, "Y," + hx(text), {"family": "grid/" + t, "expect": T.wire(r).hex() if ok else None, "reject": L > 251,
                                                                "text": text.decode("latin1")[:200]}))
                 k += 1
+        # the only type whose data can reach the 16-bit data length: DS digests of 65530 .. 65533 bytes (data = 4 + digest; 65535 is the last
+        # length that fits, so 65531 must be accepted and 65532 refused)
+        for dl in ((65530, 65531, 65532) if tier == "quick" else (65527, 65528, 65529, 65530, 65531, 65532, 65533, 70000)):
+            r = T.rand_record(rng, t="DS")
+            r.name, r.name_trailing = [b"big", b"example"], True
+            r.digest = bytes(rng.randint(0, 255) for _ in range(dl))
+            text = T.render(rng, r)
+            ok = dl + 4 <= 65535
+            cases.append(Case("y%d" % k, "Y," + hx(text), {"family": "ds-limit", "expect": T.wire(r).hex() if ok else None, "reject": not ok,
+                                                           "text": text.decode("latin1")[:120]}))
+            k += 1
         m = 300 if tier == "quick" else 8000
         alphabet = b" \t.0123456789aAzZ_-\"\\():INinTXAMSODCPRtxamsodcpr"
         for i in range(m):
@@ -1498,12 +1509,44 @@ class HistProp(Prop):
                     fails.append(("effect", "%s: the resulting bytes do not decode to any message" % what))
                 elif a1.key() != st.expect_msg.key():
                     fails.append(("effect", "%s: the decoded message differs from the abstract effect of the operation" % what))
+            # --- what the object reports about EDNS is what the OPT record of the message says (operations aimed at the OPT record's
+            #     TTL are the known class opt-ttl and are left to the view clause)
+            if "edns" in self.clauses and not is_err and o != "PANIC" and st.expect_msg is not None and st.kind != "walk-opt-ttl" and v.startswith("v["):
+                exp_e = self.edns_expected(st.expect_msg)
+                vv = dict(x.split("=") for x in v[2:-1].split(" "))
+                got_e = tuple(vv.get(k) for k in ("ec", "rc", "ver", "xf", "mp"))
+                if exp_e is not None and st.expect_msg.opt() is None:
+                    # without an OPT record the payload size is the object's default (512 after a parse, 8192 for a synthesised packet)
+                    exp_e, got_e = exp_e[:4], got_e[:4]
+                if exp_e is not None and got_e != exp_e:
+                    fails.append(("edns", "%s: the object reports EDNS (count, ext rcode, version, flags, payload) = %s, the message's OPT record says %s" % (
+                        what, "/".join(map(str, got_e)), "/".join(exp_e))))
             if "size" in self.clauses and st.kind in ("insert", "insert-too-large") and not is_err and len(b1) // 2 > 8192:
                 fails.append(("size-limit", "%s produced a packet of %d bytes (> 8192)" % (what, len(b1) // 2)))
             if "view" in self.clauses or ("err" in self.clauses and is_err):
                 self.check_state(fails, "after " + what, v, fp, ca, b1)
             prev_b = b1
         return fails
+
+    @staticmethod
+    def edns_expected(a):
+        """(count, ext rcode, version, flags, payload) as strings, from the OPT record of the abstract message; None if its data do not tile."""
+        r = a.opt()
+        if r is None:
+            return ("0", "-", "-", "-", "512")
+        d = r.rd[1] if r.rd[0] == "raw" else None
+        if d is None:
+            return None
+        n, i = 0, 0
+        while i < len(d):
+            if i + 4 > len(d):
+                return None
+            l = (d[i + 2] << 8) | d[i + 3]
+            i += 4 + l
+            n += 1
+        if i != len(d):
+            return None
+        return (str(n), str(r.ttl >> 24), str((r.ttl >> 16) & 255), str(r.ttl & 0xFFFF), str(r.c))
 
     @staticmethod
     def reject_class(bhex):
@@ -1701,13 +1744,15 @@ class C08(HistProp):
             "observed. Plus dedicated families for the three known-finding classes. Non-trivial: history has a mutating step; distinct = "
             "distinct history.")
     strength = ("PARTIAL: the mutation model (coq/Model/Mutate.v, Walk.v) is executable and tied to the implementation step by step; proved "
-                "(unbounded, every accepted packet): recompute and the decompress-first prologue of insert_rr on a freshly parsed object never "
-                "reach the consistency assertion and leave exactly the parse of the pointer-free bytes, flag cleared, cache empty "
-                "(C08_recompute_is_fresh_parse, C08_insert_prologue_is_fresh_parse), because decompression keeps the EDNS summary "
-                "(C08_decompression_keeps_edns_summary, from the summary being a function of the reading's OPT record); plus frame/shape "
-                "lemmas (C08_insert_shape: a successful insert splices exactly the record at the insertion offset and bumps exactly one "
-                "count; C08_header_setters_keep_view). The invariant 'view = fresh parse after any history' for the remaining operations "
-                "is decided each run by the correspondence plus the fresh-parse oracle on every step of every history.")
+                "(unbounded): (i) on every freshly parsed object, recompute and the decompress-first prologue of insert_rr never reach the "
+                "consistency assertion and leave exactly the parse of the pointer-free bytes (C08_recompute_is_fresh_parse, "
+                "C08_insert_prologue_is_fresh_parse, C08_decompression_keeps_edns_summary); (ii) from ANY state, a successful recompute or "
+                "rename wrapper leaves the bytes that were parsed with that parse's offsets and EDNS fields, cache empty (C08_recompute_view, "
+                "C08_rename_view); (iii) insert_rr of a well-formed pointer-free non-OPT record into any record section of a freshly parsed "
+                "object leaves a view equal to the fresh parse of the new, accepted bytes in every field (C08_insert_view, with "
+                "C09_insert_effect); plus frame/shape lemmas (C08_insert_shape, C08_header_setters_keep_view). The invariant for the "
+                "remaining operations and for longer histories is decided each run by the correspondence plus the fresh-parse oracle on "
+                "every step of every history.")
 
     def gen(self, rng, tier):
         n = 500 if tier == "quick" else 80000
@@ -1740,13 +1785,17 @@ class C08(HistProp):
 
 class C09(HistProp):
     id = "C09"
-    clauses = {"effect", "walk"}
+    clauses = {"effect", "walk", "edns"}
     rule = ("as C08's histories, but the oracle is the abstract message model: before and after every operation the bytes are decoded "
             "independently and compared (names case-insensitively) with the abstract effect - set name replaces only that owner name, delete "
             "removes only that record and lowers only its count, insert appends at the end of the chosen section, TTL/address setters change "
             "only that field; every other record, their order, header fields and EDNS data stay equal; the observations of each walk (which "
             "record a cursor designates before and after each action) must match the abstract walk. Non-trivial/distinct as C08.")
-    strength = ("PARTIAL: proved lemmas: C09_insert_appends (bytes after a successful insert = bytes before with the record spliced at the "
+    strength = ("PARTIAL: proved in full for one operation on a freshly parsed object (C09_insert_effect, unbounded over accepted packets, "
+                "sections and well-formed pointer-free non-OPT records): a successful insert_rr leaves the pointer-free encoding of the same "
+                "question and records with the new record appended at the end of the chosen section and only that count incremented; those "
+                "bytes are accepted, read declaratively as exactly that, and the object's view equals their fresh parse in every field; "
+                "records of accepted packets are such records (C09_accepted_records_insertable). Further lemmas: C09_insert_appends (bytes after a successful insert = bytes before with the record spliced at the "
                 "end of the section, one count incremented), C09_set_ttl_frame (only 4 bytes change), C09_set_ttl_effect (on a section that reads "
                 "declaratively as records l, after set_rr_ttl t on the k-th cursor the section walk returns the views of l with the k-th TTL "
                 "replaced by t and nothing else changed, PROVIDED no owner name of the section is read through the 4 bytes written; "
@@ -2182,6 +2231,22 @@ class C07(Prop):
             tgt = [b"t", b"example"] if rng.random() < 0.8 else G.name_of_wire_len(250)
             cases.append(Case("rr%d" % i, "RR,%s,%s,%s,%d" % (hx(G.wire_name(nm)), hx(G.wire_name(tgt)), hx(G.wire_name(src)), 1 if sfx else 0),
                               {"family": "replace_raw", "nm": [x.hex() for x in nm], "tgt": [x.hex() for x in tgt], "src": [x.hex() for x in src], "sfx": sfx}))
+        # partial-label near misses in which the byte just before the look-alike tail equals the length byte the source starts with
+        # (a comparison that starts at the byte offset `len(name) - len(source)` without walking the labels is fooled exactly there)
+        k = len(cases)
+        for n in range(1, 63):
+            L = bytes(rng.choice(b"abcdefghijklmnopqrstuvwxyz0123456789") for _ in range(n))
+            for pre in ([b""] if n == 62 else [b"", b"v"]):
+                if len(pre) + 1 + n > 63:
+                    continue
+                lab = pre + bytes([n]) + L
+                for front in ([], [b"w"]):
+                    nm = front + [lab, b"example"]
+                    src = [L, b"example"]
+                    for tgt in ([bytes(reversed(L)), b"example"], [b"t", b"net"]):
+                        cases.append(Case("rr%d" % k, "RR,%s,%s,%s,1" % (hx(G.wire_name(nm)), hx(G.wire_name(tgt)), hx(G.wire_name(src))),
+                                          {"family": "replace_raw", "nm": [x.hex() for x in nm], "tgt": [x.hex() for x in tgt], "src": [x.hex() for x in src], "sfx": True}))
+                        k += 1
         return cases
 
     def oracle(self, case, io):
